@@ -85,6 +85,11 @@ def drive_c17(sess, rnd, cfg, record):
         return
     tb = O.Table(r[1])
     base = g.op_batt(sess.model, tb)
+    if base is None:
+        op = make_observe(g, sess.model, cfg)
+        op["final"] = True
+        yield _emit(record, op)
+        return
     base.pop("clock", None)
     yield _emit(record, base)
     K = len(sess.last_peer.log) if getattr(sess, "last_peer", None) else 0
